@@ -440,6 +440,7 @@ pub fn run(tier: &str, seed: u64, replay: Option<String>) -> i32 {
     extra.insert("healthy_probes_equal_to_reference".into(), json!(probes_equal));
     extra.insert("recomputes_that_failed".into(), json!(i1_failures));
     extra.insert("known_findings_hit".into(), json!(verdict.known_hit));
+    extra.insert("determinism_selftest".into(), report::selftest_summary());
     extra.insert("threaded_cases".into(), json!(thr_cases.len()));
     extra.insert("scheduler_steps".into(), json!(thr_steps));
     extra.insert("distinct_interleavings".into(), json!(thr_interleavings.len()));
